@@ -343,7 +343,8 @@ func asIRI(val *fastjson.Value) (IRI, bool) {
 	}
 	// the decoded text of the string, not its JSON form (which still carries the escapes)
 	s := string(val.GetStringBytes())
-	u, err := url.ParseRequestURI(s)
+	// (url.Parse, not ParseRequestURI: an IRI may carry a fragment, which a request URI can not)
+	u, err := url.Parse(s)
 	if err == nil && len(u.Scheme) > 0 && len(u.Host) > 0 {
 		// try to see if it's an IRI
 		return IRI(s), true
